@@ -339,6 +339,49 @@ def standard_check_after_real(ctx, cases, prop, kinds, component, monitor, extra
             extra(ctx, c)
 
 
+def run_in_process(ctx, runs, tag="ip", timeout=180):
+    """runs = [(world, opts), ...]: all of them one after another in ONE fresh process (an embedding program, the
+    runner's own tests), each under contextlib.redirect_stdout(io.StringIO()) - twice_worker.py.  Returns one Obs per
+    run (stdout, exit 0/1 from the returned verdict, trace events), or None when the worker itself failed."""
+    import json
+    import subprocess
+    from harness import common
+    ctx._ip_counter = getattr(ctx, "_ip_counter", 0) + 1
+    dirs = []
+    specs = []
+    for k, (w, o) in enumerate(runs):
+        d = os.path.join(ctx.tmp, "%s%05d_%d" % (tag, ctx._ip_counter, k))
+        worlds.materialize(w, d)
+        dirs.append(d)
+        specs.append({"dir": d, "args": worlds.cli_args(d, o)[2:], "trace": os.path.join(d, "trace.jsonl")})
+    env = dict(os.environ)
+    env["PYTHONHASHSEED"] = "0"
+    try:
+        p = subprocess.run([common.PY, os.path.join(common.VERIF, "harness", "twice_worker.py")],
+                           input=json.dumps({"runs": specs}).encode(), env=env, stdout=subprocess.PIPE,
+                           stderr=subprocess.PIPE, timeout=timeout)
+        res = json.loads(p.stdout.decode().strip().split("\n")[-1])["runs"]
+    except Exception as e:  # noqa: BLE001
+        for d in dirs:
+            shutil.rmtree(d, ignore_errors=True)
+        return None, "%s: %s" % (type(e).__name__, str(e)[-300:])
+    out = []
+    for spec, r in zip(specs, res):
+        obs = worlds.Obs()
+        obs.stdout = r["stdout"]
+        obs.exit = 1 if r["failed"] else 0
+        obs.timeout = False
+        obs.exc = r["exc"]
+        if r["exc"]:
+            obs.stderr = "Traceback (most recent call last): " + r["exc"]
+        worlds.load_trace(obs, spec["trace"])
+        obs.parent_pid = r.get("pid") or next(iter(obs.procs), None)
+        out.append(obs)
+    for d in dirs:
+        shutil.rmtree(d, ignore_errors=True)
+    return out, None
+
+
 def replay_case(obj):
     case = obj.get("case", {})
     if "world" not in case:
